@@ -2,6 +2,7 @@ package c14
 
 import (
 	"fmt"
+	"strings"
 	"testing"
 
 	"github.com/0xReLogic/Helios/verifharness/lab"
@@ -103,6 +104,9 @@ func TestC14WritePartitions(t *testing.T) {
 			t.Fatal(err)
 		}
 		l, err := NewStubLab(pc)
+		if resourceError(err) {
+			lab.Problem("%s: %v", partitionsSub, err)
+		}
 		if err != nil {
 			t.Fatalf("a valid size_limit configuration was refused: %v", err)
 		}
@@ -151,6 +155,10 @@ func TestC14WritePartitions(t *testing.T) {
 			refs[pi] = &refResult{out, err}
 			return out, err
 		})
+		if strings.HasPrefix(v.Viol, "harness:") {
+			lab.Problem("%s: %s", partitionsSub, v.Viol)
+			t.Fatalf("inconclusive: %s", v.Viol)
+		}
 		if v.Excluded != "" {
 			sub.Excluded(v.Excluded)
 		}
@@ -279,6 +287,10 @@ func TestC14RequestBoundary(t *testing.T) {
 				v := judgeBoundary(&c, s, refStub, p, refProxy)
 				for k := before; k < boundaryRaceRetries; k++ {
 					sub.Excluded(keyRace)
+				}
+				if strings.HasPrefix(v.Viol, "harness:") {
+					lab.Problem("%s: %s", boundarySub, v.Viol)
+					t.Fatalf("inconclusive: %s", v.Viol)
 				}
 				if v.Excluded != "" {
 					sub.Excluded(v.Excluded)
